@@ -1,5 +1,6 @@
 /- Lemmas for C17 (Hyper-V VMCX/VMRS). Core Lean only. -/
 import Hv.HyperV
+import Hv.HyperVEnc
 import HvProofs.Basic
 namespace Hv.HyperV
 open Hv Hv.Extracted.hyperv
@@ -381,8 +382,7 @@ theorem chooseHeader_spec (h1 h2 : Header) :
   · exact ⟨.inl rfl, Nat.le_refl _, by omega⟩
   · exact ⟨.inr rfl, by omega, Nat.le_refl _⟩
 
-/-- the registry after the key tables `ts` were met in this order while walking the object tables -/
-def registerAll (ts : List KeyTable) : List (Nat × List KeyTable) := ts.foldl (fun acc t => register t acc) []
+/- `registerAll` (the registry after the key tables `ts` were met in this order) lives in `Hv.HyperVEnc` -/
 
 def SortedDesc (l : List KeyTable) : Prop := l.Pairwise (fun a b => b.seq ≤ a.seq)
 
